@@ -64,7 +64,11 @@ const PATTERNS: [&str; 25] = [
     "(h ?a (v {1}))", "(h (v {1}) ?a)", "(h ?a (p {1} {2}))", "(h (v {1}) (v {2}))", "(h (p {1} {2}) (p {2} {1}))",
     "(lam {1} (h ?a (v {1})))", "(h (p {1} {2}) (v {1}))",
 ];
-const MULTIPATTERNS: [&str; 11] = [
+const MULTIPATTERNS: [&str; 14] = [
+    // variables bound by different earlier atoms, related later, then forced onto one slot
+    "?p == (h ?a ?c), ?q == (h ?d ?b), ?r == (h ?a ?b), ?a == (v {1}), ?b == (v {1})",
+    "?p == (h ?a ?c), ?q == (h ?d ?b), ?r == (h ?a ?b), ?a == (v {1}), ?b == (v {2})",
+    "?p == (h ?a ?c), ?r == (h ?a ?b), ?b == (p {1} {2}), ?a == (p {2} {1})",
     "?x == (h ?a ?b), ?a == (f {1} {2})", "?x == (g ?a), ?a == (g ?b)", "?x == (h ?a ?a)", "?x == (f {1} {2})",
     "?x == (h ?a ?b), ?b == (v {1}), ?a == (f {1} {2})",
     "?x == (p {1} {2}), ?y == (p {2} {1})", "?x == (h ?a ?b), ?y == (h ?b ?a)", "?x == (lam {1} ?a), ?a == (p {1} {2})",
@@ -183,6 +187,7 @@ impl<'a> PathRun<'a> {
     fn run<N: AnKind>(&mut self, path: &[(usize, bool)]) -> Option<Fingerprint> {
         let ctx = self.ctx;
         self.stats.paths += 1;
+        tick(&format!("{} path {:?} naming {} mode {}", ctx.uni.name, path, self.nm.kind, self.mode));
         let full_key: Vec<usize> = {
             let mut k: Vec<usize> = path.iter().map(|p| p.0).collect();
             k.sort();
@@ -234,6 +239,7 @@ impl<'a> PathRun<'a> {
         let mut key: Vec<usize> = Vec::new();
         for (step, (e, flip)) in path.iter().enumerate() {
             self.stats.steps += 1;
+            tick(&format!("{} path {:?} step {} naming {} mode {}", ctx.uni.name, path, step + 1, self.nm.kind, self.mode));
             let (a, b) = ctx.uni.eqs[*e - 1];
             let (a, b) = if *flip { (b, a) } else { (a, b) };
             key.push(*e);
@@ -890,6 +896,7 @@ fn main() {
     let findings: Arc<Mutex<Vec<Finding>>> = Arc::new(Mutex::new(Vec::new()));
     let totals: Arc<Mutex<(Stats, usize, usize)>> = Arc::new(Mutex::new((Stats::default(), 0, 0)));
     install_hook();
+    start_watchdog(env_u64("VERIF_WATCHDOG", 90));
 
     let mut hs = Vec::new();
     for _ in 0..threads {
